@@ -103,7 +103,7 @@ def main():
                 try:
                     for c in checks:
                         t0 = time.time()
-                        rc, out = sh("./check %s --tier %s" % (c, tier), cwd=VERIF, timeout=3600)
+                        rc, out = sh("VERIF_OUTROOT=%s ./check %s --tier %s" % (os.path.join(VERIF, ".work", "seedout"), c, tier), cwd=VERIF, timeout=3600)
                         viol = [l for l in out.splitlines() if l.startswith("VIOLATION")]
                         first = ""
                         lines = out.splitlines()
